@@ -10,3 +10,4 @@ open GoMail.Props.C01
 #print axioms render_is_tree
 #print axioms tree_leaves
 #print axioms render_is_tree_all
+#print axioms boundary_delimits_children
